@@ -43,6 +43,9 @@ pub struct Call {
     last: u64,
     #[aggregate(strategy = Histogram<u64, SortAndMerge>)]
     ident: u64,
+    /// a non-Copy field merged by clone when the source is merged by reference
+    #[aggregate(strategy = KeepLast, clone)]
+    tag: String,
 }
 
 #[aggregate]
@@ -59,10 +62,19 @@ pub struct Plain {
 /// second keying of the same source (tee branch): by parity of the weight
 pub struct ByParity;
 
-#[derive(Clone, Hash, PartialEq, Eq)]
+#[derive(Clone, PartialEq, Eq)]
 #[metrics]
 pub struct ParityKey {
     odd: bool,
+    band: u64,
+}
+
+/// Distinct keys with *equal hashes*: only `odd` is hashed, so the three bands of each parity
+/// collide completely and the aggregator has to tell them apart by equality.
+impl std::hash::Hash for ParityKey {
+    fn hash<H: std::hash::Hasher>(&self, state: &mut H) {
+        self.odd.hash(state)
+    }
 }
 
 pub struct ParityKeyExtractor;
@@ -70,7 +82,7 @@ pub struct ParityKeyExtractor;
 impl Key<CallEntry> for ParityKeyExtractor {
     type Key<'a> = ParityKey;
     fn from_source(source: &CallEntry) -> Self::Key<'_> {
-        ParityKey { odd: source.weight % 2 == 1 }
+        ParityKey { odd: source.weight % 2 == 1, band: (source.weight / 2) % 3 }
     }
     fn static_key<'a>(key: &Self::Key<'a>) -> Self::Key<'static> {
         key.clone()
@@ -96,7 +108,7 @@ pub enum AK {
     Merge { tag: u32, id: u64 },
     FlushBegin { tag: u32 },
     FlushEnd { tag: u32 },
-    Emit { sink: u32, keys: Vec<(String, String)>, weight: Option<u64>, last: Option<u64>, ids: Vec<(u64, u64)>, raw_id: Option<u64> },
+    Emit { sink: u32, keys: Vec<(String, String)>, weight: Option<u64>, last: Option<u64>, ids: Vec<(u64, u64)>, raw_id: Option<u64>, tag: Option<String> },
     LoggedDrop { tag: u32 },
     FlushReq { fid: u64 },
     FlushDone { fid: u64 },
@@ -240,11 +252,15 @@ fn emit_from(no: u32, t: &TestEntry, raw: bool) -> AK {
     if let Some(m) = t.metrics.get("odd") {
         keys.push(("odd".into(), format!("{}", m.as_u64())));
     }
+    if let Some(m) = t.metrics.get("band") {
+        keys.push(("band".into(), format!("{}", m.as_u64())));
+    }
     let weight = t.metrics.get("weight").map(|m| m.as_u64());
     let last = t.metrics.get("last").map(|m| m.as_u64());
     let ids = t.metrics.get("ident").map(|m| obs_pairs(&m.distribution)).unwrap_or_default();
     let raw_id = if raw { ids.first().map(|p| p.0) } else { None };
-    AK::Emit { sink: no, keys, weight, last, ids, raw_id }
+    let tag = t.values.get("tag").cloned();
+    AK::Emit { sink: no, keys, weight, last, ids, raw_id, tag }
 }
 
 impl AnyEntrySink for CaptureSink {
@@ -296,7 +312,7 @@ pub struct AggRun {
 }
 
 fn mk_call(i: &Input) -> Call {
-    Call { endpoint: i.key.clone(), weight: i.weight, last: i.last, ident: i.id }
+    Call { endpoint: i.key.clone(), weight: i.weight, last: i.last, ident: i.id, tag: format!("t{}", i.last) }
 }
 
 enum Target {
@@ -315,7 +331,19 @@ struct ARun {
     use_guard: bool,
 }
 
-fn a_send(r: &ARun, id: u64) {
+/// Drop a merge-on-drop guard, optionally as a local of a scope that unwinds.
+fn drop_guard<G>(g: G, unwind: bool) {
+    if unwind {
+        let _ = std::panic::catch_unwind(std::panic::AssertUnwindSafe(move || {
+            let _local = g;
+            std::panic::resume_unwind(Box::new("harness: unwinding through the scope that owns the guard"));
+        }));
+    } else {
+        drop(g);
+    }
+}
+
+fn a_send(r: &ARun, id: u64, unwind: bool) {
     let Some(i) = r.inputs.get(&id) else { return };
     r.log.log(AK::SendBegin { id });
     match &r.target {
@@ -328,7 +356,7 @@ fn a_send(r: &ARun, id: u64) {
                     let mut g = mk_call(i).close_and_merge(h);
                     detsim::yield_point();
                     g.last = i.last; // mutate through the guard before the drop
-                    drop(g);
+                    drop_guard(g, unwind);
                 } else {
                     h.send(mk_call(i).close());
                 }
@@ -345,7 +373,7 @@ fn a_send(r: &ARun, id: u64) {
             if let Some(h) = h {
                 let g = Plain { weight: i.weight, last: i.last, ident: i.id }.close_and_merge(h);
                 detsim::yield_point();
-                drop(g);
+                drop_guard(g, unwind);
             }
         }
     }
@@ -402,7 +430,7 @@ fn flush_worker(r: &ARun, fid: u64, op: &Value, fut: impl std::future::Future<Ou
 fn a_ops(r: &Arc<ARun>, ops: &[Value]) {
     for op in ops {
         match js(op, "op", "") {
-            "send" => a_send(r, ju(op, "id", 0)),
+            "send" => a_send(r, ju(op, "id", 0), jb(op, "unwind", false)),
             "flush" => a_flush(r, op),
             "sleep" => detsim::sleep_ns(ju(op, "ns", 0)),
             "yield" => detsim::yield_point(),
@@ -542,6 +570,7 @@ struct Emitted {
     last: Option<u64>,
     ids: Vec<(u64, u64)>,
     raw_id: Option<u64>,
+    tag: Option<String>,
 }
 
 pub fn check_c10(plan: &Value, run: &AggRun) -> Option<Violation> {
@@ -558,7 +587,7 @@ pub fn check_c10(plan: &Value, run: &AggRun) -> Option<Violation> {
     let mut logged_drop = None;
     for e in h {
         match &e.k {
-            AK::Emit { sink, keys, weight, last, ids, raw_id } => emitted.push(Emitted { seq: e.seq, sink: *sink, keys: keys.clone(), weight: *weight, last: *last, ids: ids.clone(), raw_id: *raw_id }),
+            AK::Emit { sink, keys, weight, last, ids, raw_id, tag } => emitted.push(Emitted { seq: e.seq, sink: *sink, keys: keys.clone(), weight: *weight, last: *last, ids: ids.clone(), raw_id: *raw_id, tag: tag.clone() }),
             AK::SendBegin { id } => {
                 send_inv.insert(*id, e.seq);
             }
@@ -601,6 +630,12 @@ pub fn check_c10(plan: &Value, run: &AggRun) -> Option<Violation> {
                     "odd" => Some(("odd".to_string(), format!("{}", inp.weight % 2))),
                     _ => None,
                 };
+                if *keying == "odd" {
+                    let k2 = ("band".to_string(), format!("{}", (inp.weight / 2) % 3));
+                    if !em.keys.contains(&k2) {
+                        return Some(Violation::new("input_in_wrong_aggregate", format!("input {id} (key {:?}, hash-colliding with the other bands) was emitted in the aggregate with key {:?} (sink {sink})", k2, em.keys)));
+                    }
+                }
                 if let Some(k) = expect_key {
                     if !em.keys.contains(&k) {
                         return Some(Violation::new("input_in_wrong_aggregate", format!("input {id} (key {:?}) was emitted in the aggregate with key {:?} (sink {sink})", k, em.keys)));
@@ -623,6 +658,9 @@ pub fn check_c10(plan: &Value, run: &AggRun) -> Option<Violation> {
                 if let Some((_, lv)) = latest {
                     if em.last != Some(lv) {
                         return Some(Violation::new("keep_last_mismatch", format!("aggregate {:?} (sink {sink}) reports last={:?}, the input merged last carried {lv}", em.keys, em.last)));
+                    }
+                    if *keying != "none" && em.tag != Some(format!("t{lv}")) {
+                        return Some(Violation::new("keep_last_mismatch", format!("aggregate {:?} (sink {sink}) reports tag={:?} (a field merged by clone), the input merged last carried \"t{lv}\"", em.keys, em.tag)));
                     }
                 }
                 let mut sorted = em.ids.clone();
@@ -763,7 +801,7 @@ pub fn gen_c10(rng: &mut Rng, _tier: Tier) -> Value {
         for _ in 0..n {
             let id = next_id;
             next_id += 1;
-            ops.push(json!({"op":"send","id":id,"key":format!("k{}", rng.below(nkeys)),"weight":rng.below(1000),"last":rng.below(1_000_000)}));
+            ops.push(json!({"op":"send","id":id,"key":format!("k{}", rng.below(nkeys)),"weight":rng.below(1000),"last":rng.below(1_000_000),"unwind":rng.chance(0.1)}));
             match rng.below(10) {
                 0 | 1 if allow_flush => ops.push(json!({"op":"flush","mode": if rng.chance(0.8) {"await"} else {"cancel"}})),
                 2 => ops.push(json!({"op":"sleep","ns": (interval as f64 * *rng.pick(&[0.1, 0.7, 1.5])) as u64 % 1_000_000_000})),
